@@ -182,6 +182,49 @@ def run_case(case):
             for ctx, obl in r2:
                 res.add_obl(obl)
 
+    # (3) the on-demand iterator under every completion order: boxes come back in the order requested
+    for lv in range(ref.nlev):
+        nb = len(ref.boxes[lv])
+        if nb < 2:
+            continue
+        for bs_expr in (repr(list(range(nb))[::-1]), repr([True] * nb), repr(list(range(nb)))):
+            fs_expr = fsels[(lv + len(bs_expr)) % len(fsels)]
+            fsel = eval(fs_expr, {'np': np})
+            fexp = select.fields_expected(ref.fields, fsel)
+            if fexp in (None, select.RAISE) or (fexp[0] == 'multi' and not fexp[1]):
+                continue
+            bsel = eval(bs_expr, {'np': np})
+            bexp = select.boxes_expected(nb, bsel)
+            if bexp in (None, select.RAISE) or bexp[0] != 'many' or c01.is_lenient(fsel, bsel, fexp, bexp):
+                continue
+
+            def it_path(ctx, fsel=fsel, fexp=fexp, lv=lv, fs_expr=fs_expr, bsel=bsel, bexp=bexp, bs_expr=bs_expr):
+                fs = SymFS()
+                ref.write_symfs(fs, '/work/plt')
+                obl = Obl(ctx)
+                sch = pool.Schedule('symbolic', seed=common.SEED)
+                with patch.Patched(mods, fs, schedule=sch), common.quiet():
+                    pck = PlotfileCooker('plt')
+                    n0 = len(obl.failed)
+                    what = 'list(pck[%s][%d].iter(%s)) under schedule' % (fs_expr, lv, bs_expr)
+                    try:
+                        got = list(pck[fsel][lv].iter(bsel))
+                        if len(got) != len(bexp[1]):
+                            obl.fail('%s %s: yielded %d arrays for %d boxes' % (what, sch.log, len(got), len(bexp[1])))
+                        else:
+                            for g, b in zip(got, bexp[1]):
+                                if not c01.compare(obl, g, c01.expected_array(ref, lv, b, fexp), '%s %s box %d' % (what, sch.log, b)):
+                                    break
+                    except Exception as e:
+                        obl.fail('%s raised %s: %s' % (what, type(e).__name__, str(e)[:100]))
+                    record(obl, n0, 'C15/iter()/schedule', [fs_expr, str(lv), bs_expr], 'iter')
+                return obl
+            r3, ex3, st3 = core.explore(it_path, max_paths=200)
+            res.add_explore(r3, ex3, st3)
+            nsched += st3['paths']
+            for ctx, obl in r3:
+                res.add_obl(obl)
+
     # canary: a specification that expects one box more must be violated
     def canary(ctx):
         fs = SymFS()
